@@ -84,7 +84,7 @@ func init() {
 //
 //	framecSendsWhole     every sender makes exactly ONE send per call, outside any loop / closure, of a
 //	                     variable that was obtained from one constructor call in that function and is
-//	                     otherwise only assigned `v = append(v, …)`, and does not touch it after the send
+//	                     otherwise only extended (`v = append(v, …)` or any `v = f(v, …)`), and does not touch it after the send
 //	framecSenders        number of sender functions (> 0)
 //	framecReceivers      receive expressions on the channel in the file
 //	writerWritesReceived the receive is `case v := <-ch:` whose body passes v exactly once to <writer>.Write
@@ -237,7 +237,7 @@ func streamFacts(g *gen, mf *ast.File) {
 							switch {
 							case y.Tok == token.DEFINE && isCall && src(call.Fun) != "append":
 								defs++ // v := constructor(…)
-							case y.Tok == token.ASSIGN && isCall && src(call.Fun) == "append" && len(call.Args) > 0 && src(call.Args[0]) == v:
+							case y.Tok == token.ASSIGN && isCall && len(call.Args) > 0 && src(call.Args[0]) == v: // v = append(v, …), v = binary.BigEndian.AppendUint32(v, …)
 							default:
 								bad = true
 							}
